@@ -13,6 +13,7 @@ import (
 
 func init() {
 	verifrt.Register("H_C09_NewVersion", H_C09_NewVersion)
+	verifrt.Register("H_C09_Concurrent", H_C09_Concurrent)
 }
 
 // A part of version 1 of a file is on record; then a part of version 2 (another
@@ -66,4 +67,58 @@ func H_C09_NewVersion(v *verifrt.T) {
 	} else {
 		v.Assert(verifrt.Not(whole), "C09 a version received in one piece is complete")
 	}
+}
+
+// Two parts of one file arrive at the same time on two connections (two
+// goroutines), under the engine's adversarial schedules: a goroutine about to
+// take a mutex, and a goroutine that has just made a file-system call, lets
+// the other run first — so both requests are inside Receive together. The path lock must
+// serialise them: afterwards both acknowledged parts are on record (or the
+// file is complete and delivered), whatever the interleaving.
+func H_C09_Concurrent(v *verifrt.T) {
+	size := v.Int64("size")
+	v.Assume(size >= 2)
+	v.Assume(size <= 4096)
+	m := v.Int64("split")
+	v.Assume(1 <= m)
+	v.Assume(m < size)
+	h1 := v.Version("v1", size)
+	e := newEnv(v)
+	parts := [][2]int64{{0, m}, {m, size}}
+	// both requests have announced their parts (Prepare); optionally the lock
+	// entry of the name has just been dropped again, as the delivery of an
+	// earlier version of the same name does when it finishes
+	for _, p := range parts {
+		e.s.Prepare([]sts.Binned{&vBinned{name: "a", hash: h1, size: size, beg: p[0], end: p[1], t: v.Now()}})
+	}
+	if v.Choose("lock-entry-dropped-by-an-earlier-delivery", 2) == 1 {
+		e.s.delPathLock(filepath.Join(e.stage, "a"))
+	}
+	v.YieldOnLock(v.Choose("yield-before-locks", 2) == 1)
+	v.YieldOnFS(v.Choose("yield-after-file-system-calls", 2) == 1)
+	errs := make([]error, 2)
+	done := make(chan int, 2)
+	for k, p := range parts {
+		k, p := k, p
+		go func() {
+			errs[k] = e.s.Receive(&sts.Partial{Name: "a", Size: size, Hash: h1, Source: "src",
+				Parts: []*sts.ByteRange{{Beg: p[0], End: p[1]}}}, v.Reader("v1", p[0], p[1]-p[0]))
+			done <- k
+		}()
+	}
+	v.Quiesce()
+	v.YieldOnLock(false)
+	v.YieldOnFS(false)
+	v.Assert(len(done) == 2, "both requests return")
+	v.Assert(errs[0] == nil && errs[1] == nil, "C09 both parts are acknowledged")
+	v.Quiesce()
+	final := filepath.Join(e.final, "a")
+	if v.Exists(final) {
+		v.Assert(v.FileIs(final, "v1"), "C01 what is delivered is the announced version byte for byte")
+		v.Reach("delivered")
+		return
+	}
+	cmp, _ := readLocalCompanion(filepath.Join(e.stage, "a"), "a")
+	v.Assert(cmp != nil && companionPartExists(cmp, 0, m) && companionPartExists(cmp, m, size), "C09 every acknowledged part is on record, also when parts arrive at the same time")
+	v.Assert(false, "C09 a file whose parts were all acknowledged completes")
 }
